@@ -3,6 +3,8 @@
 usage: seeds_regress.py [id ...]   (never commits anything in /repo)"""
 import glob, json, os, subprocess, sys
 V = os.path.dirname(os.path.dirname(os.path.abspath(__file__)))
+os.environ.setdefault("VERIF_EVIDENCE_DIR", "/tmp/verif_experiment_evidence")
+os.makedirs(os.path.join(os.environ["VERIF_EVIDENCE_DIR"], "replays"), exist_ok=True)
 REPO = os.environ.get("RSP_REPO", "/repo")     # (a scratch clone when run in the background; honours VERIF_SEED like the checks)
 ids = sys.argv[1:] or sorted(os.path.basename(os.path.dirname(f)) for f in glob.glob(os.path.join(V, "seeded", "*", "meta.json")))
 assert subprocess.run(["git", "-C", REPO, "status", "--porcelain", "--untracked-files=no"], capture_output=True, text=True).stdout.strip() == "", "/repo not clean"
